@@ -341,7 +341,25 @@ class Discharger:
             changed = False
             rest = []
             for a, asy in pool:
-                if asy & syms:
+                # a definitional axiom is relevant when one of the FRESH symbols it constrains (names carrying '!') occurs in the
+                # query; shared global functions (cardinality, string order, ...) alone do not make it relevant
+                fresh = {x for x in asy if "!" in x}
+                # ... and among the fresh symbols those the axiom DEFINES (created between the previous definition and this one),
+                # when that can be told: an axiom such as n == card(nodes(G)) defines n, it does not define nodes(G)
+                r = getattr(self.eng, "def_range", {}).get(a.get_id())
+                if r is not None and fresh:
+                    lo, hi = r[0], r[1]
+                    own = set()
+                    for x in fresh:
+                        try:
+                            k = int(x.rsplit("!", 1)[1])
+                        except ValueError:
+                            continue
+                        if lo < k <= hi:
+                            own.add(x)
+                    if own:
+                        fresh = own
+                if (fresh & syms) if fresh else (asy & syms):
                     used.append(a)
                     if not asy <= syms:
                         syms |= asy
